@@ -63,6 +63,9 @@ struct Q {
     resolved: bool,
     /// right after quoting, both boundaries sat on block edges of the quoting replica (it cut them itself)
     cut_at_quote: bool,
+    /// right after quoting, some quoted element sat in a block of several units (a later split of such a block
+    /// loses the links of its right part: known gap)
+    multi_unit_quoted: bool,
 }
 
 struct W20 {
@@ -273,7 +276,7 @@ impl W20 {
                 Some((j, false)) => *j as usize,
             };
             let requested = if from <= to && to <= tags.len() { tags[from..to].to_vec() } else { Vec::new() };
-            self.q = Some(Q { lo: lo.map(|(_, incl)| ((0, 0), incl)), hi: hi.map(|(_, incl)| ((0, 0), incl)), spec: format!("{:?}..{:?}", lo, hi), requested, resolved: false, cut_at_quote: false });
+            self.q = Some(Q { lo: lo.map(|(_, incl)| ((0, 0), incl)), hi: hi.map(|(_, incl)| ((0, 0), incl)), spec: format!("{:?}..{:?}", lo, hi), requested, resolved: false, cut_at_quote: false, multi_unit_quoted: false });
           }
         }
         self.w.step(a).map_err(|e| {
@@ -307,7 +310,15 @@ impl W20 {
                     h.0 = id;
                 }
                 q.resolved = true;
-                q.cut_at_quote = !boundary_inside_block(&self.w.reps[*r], q);
+                // (a start-exclusive quotation is neither cut nor linked by quote(): a block edge there is a coincidence)
+                q.cut_at_quote = !boundary_inside_block(&self.w.reps[*r], q) && !matches!(q.lo, Some((_, false)));
+                {
+                    let sd = self.w.reps[*r].store_dump();
+                    let ids: Vec<(u64, u32)> = q.requested.iter().filter_map(|t| self.tag_id.get(t).copied()).collect();
+                    q.multi_unit_quoted = sd.clients.iter().any(|(c, list)| {
+                        list.iter().any(|b| b.kind == yrs::verif::BlockKind::Item && b.len >= 2 && ids.iter().any(|id| id.0 == *c && b.id.1 <= id.1 && id.1 < b.id.1 + b.len))
+                    });
+                }
                 let got = deref(&self.w.reps[*r], kind, &wk);
                 if got != q.requested {
                     { let __e: (String, String) = (if boundary_inside_block(&self.w.reps[*r], q) { "dereference-differs:boundary-inside-block".into() } else { "quotation-differs-from-requested-range".into() },
@@ -345,7 +356,7 @@ impl W20 {
                         if self.q.as_ref().map(|q| boundary_inside_block(rep, q)).unwrap_or(false) {
                             // the replica that made the quotation cut its blocks at the boundaries itself and protects the
                             // cut with the linked flag: there a boundary inside a block means the protection was lost
-                            if i == 0 && self.q.as_ref().map(|q| q.cut_at_quote).unwrap_or(false) { "dereference-differs:boundary-cut-lost-on-the-quoting-replica".into() } else { "dereference-differs:boundary-inside-block".into() }
+                            if i == 0 && self.q.as_ref().map(|q| q.cut_at_quote && !q.multi_unit_quoted).unwrap_or(false) { "dereference-differs:boundary-cut-lost-on-the-quoting-replica".into() } else { "dereference-differs:boundary-inside-block".into() }
                         } else { "dereference-differs".into() },
                         format!(
                             "replica {} after {:?}: quotation {} dereferences to {:?} but the elements between its boundaries are {:?} (source {})",
